@@ -30,7 +30,8 @@ Record claim := mkClaim {
   c_rltt : Z;              (* lastTransitionTime of Registered (seconds since creation) *)
   c_pid : option nat;      (* status.providerID = instance number *)
   c_nn : bool;             (* status.nodeName set *)
-  c_term : bool }.         (* InstanceTerminating condition *)
+  c_term : bool;           (* InstanceTerminating condition *)
+  c_ffin : bool }.         (* somebody else's finalizer is on the object *)
 
 Record node := mkNode {
   n_pid : nat;
@@ -99,13 +100,15 @@ Record plan := mkPlan {
   f_status : wr;           (* final Status().Patch *)
   f_pdel_err : bool;       (* cloudProvider.Delete fails *)
   f_term : wr;             (* InstanceTerminating status patch *)
-  f_unfin : wr }.          (* finalizer removal *)
+  f_unfin : wr;            (* finalizer removal *)
+  f_list_fin : bool;       (* node list of finalize fails *)
+  f_ndel_err : bool }.     (* Delete(node) of finalize fails *)
 
 Inductive eff :=
 | EFin (o : wr) | ECreate (o : pout) | EDelLaunch (o : wr)
 | ENodePatchReg (o : wr) | EPoolReg (o : wr) | ENodePatchInit (o : wr)
 | EPoolLive (o : wr) | EDelLive (o : wr) | EPatch (o : wr) | EStatus (o : wr)
-| ENodeDel | EDupDel | EPDel (o : dres) | ETerm (o : wr) | EUnfin (o : wr).
+| ENodeDel | EDupDel | EPDel (o : dres) | ETerm (o : wr) | EUnfin (o : wr) | ENodeDelFail.
 
 (* reconcile.Result / error, as the work queue sees it *)
 Inductive qres := QNone | QAfter (d : Z) | QErr.
@@ -141,7 +144,7 @@ Definition conds_eqb (a b : claim) : bool :=
 
 Definition claim_eqb (a b : claim) : bool :=
   Bool.eqb (c_fin a) (c_fin b) && Bool.eqb (c_del a) (c_del b) && conds_eqb a b &&
-  onat_eqb (c_pid a) (c_pid b) && Bool.eqb (c_nn a) (c_nn b).
+  onat_eqb (c_pid a) (c_pid b) && Bool.eqb (c_nn a) (c_nn b) && Bool.eqb (c_ffin a) (c_ffin b).
 
 Definition node_eqb (a b : node) : bool :=
   Nat.eqb (n_pid a) (n_pid b) && Bool.eqb (n_unreg a) (n_unreg b) && Bool.eqb (n_reglabel a) (n_reglabel b) &&
@@ -190,25 +193,26 @@ Definition eff_eqb (a b : eff) : bool :=
   | EPatch x, EPatch y | EStatus x, EStatus y | ETerm x, ETerm y | EUnfin x, EUnfin y => wr_eqb x y
   | ECreate x, ECreate y => pout_eqb x y
   | EPDel x, EPDel y => dres_eqb x y
-  | ENodeDel, ENodeDel | EDupDel, EDupDel => true
+  | ENodeDel, ENodeDel | EDupDel, EDupDel | ENodeDelFail, ENodeDelFail => true
   | _, _ => false end.
 Definition qres_eqb (a b : qres) : bool :=
   match a, b with QNone, QNone | QErr, QErr => true | QAfter x, QAfter y => x =? y | _, _ => false end.
 
 (* ---------------------------------------------------------------- record updates *)
 
-Definition cl_fin (c : claim) (b : bool) := mkClaim b (c_del c) (c_l c) (c_r c) (c_i c) (c_rltt c) (c_pid c) (c_nn c) (c_term c).
-Definition cl_del (c : claim) (b : bool) := mkClaim (c_fin c) b (c_l c) (c_r c) (c_i c) (c_rltt c) (c_pid c) (c_nn c) (c_term c).
-Definition cl_l (c : claim) (x : lcond) := mkClaim (c_fin c) (c_del c) x (c_r c) (c_i c) (c_rltt c) (c_pid c) (c_nn c) (c_term c).
-Definition cl_r (c : claim) (x : rcond) := mkClaim (c_fin c) (c_del c) (c_l c) x (c_i c) (c_rltt c) (c_pid c) (c_nn c) (c_term c).
-Definition cl_i (c : claim) (x : icond) := mkClaim (c_fin c) (c_del c) (c_l c) (c_r c) x (c_rltt c) (c_pid c) (c_nn c) (c_term c).
-Definition cl_rltt (c : claim) (t : Z) := mkClaim (c_fin c) (c_del c) (c_l c) (c_r c) (c_i c) t (c_pid c) (c_nn c) (c_term c).
-Definition cl_pid (c : claim) (p : option nat) := mkClaim (c_fin c) (c_del c) (c_l c) (c_r c) (c_i c) (c_rltt c) p (c_nn c) (c_term c).
-Definition cl_nn (c : claim) (b : bool) := mkClaim (c_fin c) (c_del c) (c_l c) (c_r c) (c_i c) (c_rltt c) (c_pid c) b (c_term c).
-Definition cl_term (c : claim) (b : bool) := mkClaim (c_fin c) (c_del c) (c_l c) (c_r c) (c_i c) (c_rltt c) (c_pid c) (c_nn c) b.
+Definition cl_fin (c : claim) (b : bool) := mkClaim b (c_del c) (c_l c) (c_r c) (c_i c) (c_rltt c) (c_pid c) (c_nn c) (c_term c) (c_ffin c).
+Definition cl_del (c : claim) (b : bool) := mkClaim (c_fin c) b (c_l c) (c_r c) (c_i c) (c_rltt c) (c_pid c) (c_nn c) (c_term c) (c_ffin c).
+Definition cl_l (c : claim) (x : lcond) := mkClaim (c_fin c) (c_del c) x (c_r c) (c_i c) (c_rltt c) (c_pid c) (c_nn c) (c_term c) (c_ffin c).
+Definition cl_r (c : claim) (x : rcond) := mkClaim (c_fin c) (c_del c) (c_l c) x (c_i c) (c_rltt c) (c_pid c) (c_nn c) (c_term c) (c_ffin c).
+Definition cl_i (c : claim) (x : icond) := mkClaim (c_fin c) (c_del c) (c_l c) (c_r c) x (c_rltt c) (c_pid c) (c_nn c) (c_term c) (c_ffin c).
+Definition cl_rltt (c : claim) (t : Z) := mkClaim (c_fin c) (c_del c) (c_l c) (c_r c) (c_i c) t (c_pid c) (c_nn c) (c_term c) (c_ffin c).
+Definition cl_pid (c : claim) (p : option nat) := mkClaim (c_fin c) (c_del c) (c_l c) (c_r c) (c_i c) (c_rltt c) p (c_nn c) (c_term c) (c_ffin c).
+Definition cl_nn (c : claim) (b : bool) := mkClaim (c_fin c) (c_del c) (c_l c) (c_r c) (c_i c) (c_rltt c) (c_pid c) b (c_term c) (c_ffin c).
+Definition cl_ffin (c : claim) (b : bool) := mkClaim (c_fin c) (c_del c) (c_l c) (c_r c) (c_i c) (c_rltt c) (c_pid c) (c_nn c) (c_term c) b.
+Definition cl_term (c : claim) (b : bool) := mkClaim (c_fin c) (c_del c) (c_l c) (c_r c) (c_i c) (c_rltt c) (c_pid c) (c_nn c) b (c_ffin c).
 (* the condition list is one JSON value: it is written as a whole *)
 Definition cl_conds (c from : claim) :=
-  mkClaim (c_fin c) (c_del c) (c_l from) (c_r from) (c_i from) (c_rltt from) (c_pid c) (c_nn c) (c_term from).
+  mkClaim (c_fin c) (c_del c) (c_l from) (c_r from) (c_i from) (c_rltt from) (c_pid c) (c_nn c) (c_term from) (c_ffin c).
 
 (* StatusConditions(): absent root/dependent conditions are initialised to Unknown *)
 Definition norm (c : claim) : claim :=
@@ -250,14 +254,22 @@ Definition state_of (r : rs) (s : state) : state :=
 Definition eff_wr (p : option claim) (o : wr) : wr :=
   match o, p with WOk, None => WNotFound | _, _ => o end.
 
-(* API Delete: with a finalizer the object only gets a deletionTimestamp *)
+(* API Delete: with any finalizer the object only gets a deletionTimestamp *)
 Definition del_claim (p : option claim) : option claim :=
   match p with
-  | Some c => if c_fin c then Some (cl_del c true) else None
+  | Some c => if c_fin c || c_ffin c then Some (cl_del c true) else None
   | None => None
   end.
 
 Definition err_of_wr (r : rs) (w : wr) : rs := add_err r (ek_of w).
+
+(* another controller adds / removes its finalizer; removing the last finalizer of a terminating object removes it *)
+Definition set_ffin (p : option claim) (b : bool) : option claim :=
+  match p with
+  | Some c => if c_del c && negb b && negb (c_fin c) then None else Some (cl_ffin c b)
+  | None => None
+  end.
+Arguments set_ffin : simpl never.
 
 (* ---------------------------------------------------------------- Launch.Reconcile *)
 
@@ -518,7 +530,7 @@ Definition unfinalize (pl : plan) (s : state) (r : rs) : state * (list eff * qre
   match w with
   | WOk =>
       let p' := match r_pc r with
-                | Some p => if c_del p then None else Some (cl_fin p false)
+                | Some p => if c_del p && negb (c_ffin p) then None else Some (cl_fin p false)
                 | None => None end in
       (state_of (set_pc r p') s, (r_effs r, QNone))
   | WConflict => (state_of r s, (r_effs r, QAfter 0))
@@ -528,10 +540,14 @@ Definition unfinalize (pl : plan) (s : state) (r : rs) : state * (list eff * qre
 
 Definition finalize (k : cfg) (pl : plan) (s : state) (v : claim) : state * (list eff * qres) :=
   if negb (c_fin v) then (s, ([], QNone)) else
+  (* AllNodesForNodeClaim lists only for a registered claim with a provider id *)
+  if (match c_r v, c_pid v with RTrue, Some _ => f_list_fin pl | _, _ => false end) then (s, ([], QErr)) else
   let r := init_rs s (norm v) in
   let listed := match c_r v with RTrue => match_count r | _ => 0%nat end in
   match listed, r_nd r with
   | S _, Some n =>
+      if negb (n_del n) && f_ndel_err pl then
+        let r := add_eff r ENodeDelFail in (state_of r s, (r_effs r, QErr)) else
       let r := if n_del n then r
                else if n_synced n then set_nd (add_eff r ENodeDel) (Some (nd_del n))
                else set_nd (add_eff r ENodeDel) None in
@@ -591,7 +607,8 @@ Inductive op :=
 | Restart                    (* process restart: launch cache lost, informer re-lists *)
 | NodeAppear (unreg : bool)  (* the kubelet of the newest instance registers its Node *)
 | NReady (b : bool) | NStartupOff | NEph (b : bool) | NExt (b : bool)
-| DupAppear | DupVanish | NodeVanish.
+| DupAppear | DupVanish | NodeVanish
+| ForeignFin (b : bool).     (* another controller adds / removes its own finalizer on the NodeClaim *)
 
 Definition upd_nd (s : state) (f : node -> node) : state :=
   mkState (pc s) (vw s) (option_map f (nd s)) (dp s) (ch s) (made s) (alive s) (now s).
@@ -620,11 +637,15 @@ Definition step (k : cfg) (s : state) (o : op) : state * (list eff * qres) :=
                     | None => s end
      | DupVanish => mkState (pc s) (vw s) (nd s) false (ch s) (made s) (alive s) (now s)
      | NodeVanish => if dp s then s else mkState (pc s) (vw s) None (dp s) (ch s) (made s) (alive s) (now s)
+     | ForeignFin b =>
+         (* removing the last finalizer of a terminating object removes the object *)
+         let p' := set_ffin (pc s) b in
+         mkState p' (vw s) (nd s) (dp s) (ch s) (made s) (alive s) (now s)
      | Rec _ => s
      end, ([], QNone))
   end.
 
-Definition fresh : claim := mkClaim false false LAbsent RAbsent IAbsent 0 None false false.
+Definition fresh : claim := mkClaim false false LAbsent RAbsent IAbsent 0 None false false false.
 Definition init : state := mkState (Some fresh) (Some fresh) None false None 0 [] 0.
 
 (* one frame per op: what was stored before, what the op did, what is stored afterwards *)
